@@ -81,7 +81,7 @@ theorem allCancelled_of_noCtx (s : St) (h : OwnC s) (hc : s.ctx = none) : AllCan
   intro g y i x hy hx
   cases hcx : x.cancelled with
   | true => rfl
-  | false => have := h g y i x hy hx hcx; simp [hc] at this
+  | false => have := h g y i x hy hx hcx; simp [hc, isLive] at this
 
 theorem ownc_of_allCancelled (s : St) (h : AllCancelled s) : OwnC s := by
   intro g y i x hy hx hcx; rw [h g y i x hy hx] at hcx; cases hcx
@@ -159,7 +159,7 @@ theorem cancelOf_setCtxOne (restart : Bool) (s : St) (k k' : Nat) (hc : s.ctx = 
     · subst hkk; split <;> simp
     · split <;> simp [hkk]
 
-theorem inv3_setContext (s : St) (c : Option Nat) (restart : Bool) (h : Inv3 s) :
+theorem inv3_setContext (s : St) (c : Option Nat) (restart : Bool) (h : Inv3 s) (hc0 : c ≠ some 0) :
     Inv3 (setContext s c restart) := by
   unfold setContext
   simp only []
@@ -169,8 +169,12 @@ theorem inv3_setContext (s : St) (c : Option Nat) (restart : Bool) (h : Inv3 s) 
     cases c with
     | some c0 =>
       -- a context is set throughout
+      have hlive : isLive (some c0) = true := by
+        cases c0 with
+        | zero => exact absurd rfl hc0
+        | succ n => rfl
       have h0 : Inv3 { s with ctx := some c0 } :=
-        ⟨kinv_congr (s := s) rfl rfl h.k, own_congr (s := s) rfl rfl h.own, fun _ _ _ _ _ _ _ => rfl⟩
+        ⟨kinv_congr (s := s) rfl rfl h.k, own_congr (s := s) rfl rfl h.own, fun _ _ _ _ _ _ _ => hlive⟩
       exact foldl_inv _ (inv3_setCtxOne _ restart) _ _ h0
     | none =>
       have h0 : NoCtx { s with ctx := none } :=
